@@ -12,6 +12,10 @@ CLAIMS = {
             "Trusted: Coq kernel, extraction + OCaml driver, the correspondence harness; Vec/usize modelled as list/N. No axioms.", "4.C20"),
     "C08": ("Coq theorems about the combinator-for-combinator Gallina transcription of lib/src/parser.rs: C08_accepts_grammar (every text of the documented grammar - any fact order, nesting, layout, keyword-like or quoted labels - is accepted and yields exactly the written statements and formulas), C08_accepts_only_grammar / C08_accepts_iff (nothing else is accepted: acceptance iff membership in the grammar), rejection corollaries (missing dot, trailing garbage, blank input) and fuel-independence of the formula parser; all for unbounded inputs. Tie: model and implementation run on rendered random documents and byte-level mutations of them and must agree on accept/reject, names, and every formula; an independent recogniser judges the implementation's answers. The CLI / web halves of the rejection claim are checked under C15 / C16.",
             "Trusted: Coq kernel, extraction + driver, harness, nom 7.1 primitives behaving as transcribed (alphanumeric1 = ASCII letters/digits). No axioms.", "4.C08"),
+    "C06": ("Coq theorems: the node-table invariant holds in every state reachable by programs of diagram-building operations under every feature configuration (C06_reachable_invariant, by induction over the program; each of mk_node / restrict / ite preserves it for arbitrary correct memo-table contents), the exported table of such a state is Canonical (reduced, ordered, duplicate-free, children earlier) and satisfies the specification's SameHandleIffSameFunction (canonicity theorem, by induction on handles), two registers are equal iff their functions are, a register is the top/bottom handle iff its function is valid/unsatisfiable, and every program runs to completion (fuel sufficiency incl. ite). Unbounded in program length, operands, variables. Tie: random programs (memo tables exercised) run on model and implementation, tables compared exactly and up to handle renaming; the implementation's table is judged structurally and by truth tables. Re-imports and bridge conversions are covered by C14 / C09 through C06_invariant_gives_canonicity.",
+            "Trusted: Coq kernel, extraction + driver, harness; HashMap/HashSet/Vec modelled as finite maps/sets/lists; usize as unbounded N. Raw Bdd::node with unordered arguments is outside 'diagram-building operations' (precondition of mk_node_ok). No axioms.", "4.C06"),
+    "C07": ("Coq theorems C07_not/and/or/imp/iff/xor/variable/restrict: for every store satisfying the invariant (any correct memo-table contents, warm or cold) and all operand handles, the result denotes the named Boolean function of the operands' functions (restrict = cofactor), the store is only extended, and extension preserves the function of every previously issued handle (C07_old_handles_unchanged); totality of restrict and ite; lifted to whole programs (C07_programs, C07_later_operations_do_not_change_earlier_results). Tie: same programs as C06; every operation result of the implementation is checked against the truth-table semantics of the op and against the extracted model.",
+            "Trusted: as C06. No axioms.", "4.C07"),
 }
 
 NOT_YET = "check not built yet in this round (framework under construction; see DESIGN.md section 8 staging)"
